@@ -170,7 +170,7 @@ def validate_workers(workers, name):
         groups.setdefault(w[0], []).append(w[1])
     drift, states, validated = [], 0, 0
     for (meas, mode, ae), recs in sorted(groups.items()):
-        cfg_path = os.path.join(config.workdir('traces'), '%s-%s-%s-%s.cfg' % (name, meas, mode, ae))
+        cfg_path = os.path.join(config.workdir('traces'), '%d-%s-%s-%s-%s.cfg' % (os.getpid(), name, meas, mode, ae))
         with open(cfg_path, 'w') as fh:
             fh.write(workertrace.CFG % (meas, 'TRUE' if ae else 'FALSE', mode))
         verd, st = runner.validate(recs, 'TraceWorkers', '%s-%s-%s-%s' % (name, meas, mode, ae), batch=1200,
